@@ -51,7 +51,9 @@ CLAIMS["C03"] = (
 CLAIMS["C07"] = (
     "TLA+ comparison matrix and boolean operators (XSem.tla Compare/ToBool, XValue.tla exact IEEE model) explored by TLC "
     "over the full operator x operand-type x operand-value matrix on value documents; replay on the engine via Evaluate "
-    "and as predicates via Select; seeded deeper comparisons recorded from the engine and validated by TLC",
+    "and as predicates via Select; seeded deeper comparisons recorded from the engine and validated by TLC; exact "
+    "unbounded binary64 model (XFloat.tla, arbitrary-precision limbs) for comparisons over non-dyadic and > 2^53 values "
+    "(MC_Float families cmp, pred), engine replies compared bit for bit",
     "Exhaustive model checking of the claimed type pairs: 6 operators x number/string/node-set operands incl. NaN, "
     "infinity, non-numeric, empty, whitespace-padded and duplicate node values; short-circuit observed through an operand "
     "that raises a deliberate complaint if evaluated.",
@@ -59,14 +61,18 @@ CLAIMS["C07"] = (
 CLAIMS["C08"] = (
     "TLA+ exact model of IEEE-754 arithmetic on signed dyadic rationals with NaN/Infinity/signed zero (XValue.tla) "
     "explored by TLC over all arithmetic trees of depth 1-2 (thorough: larger leaf sets), depth 3-4 by seeded engine "
-    "traces validated by TLC; bit-exact comparison of the engine's float64 with the specified value",
+    "traces validated by TLC; bit-exact comparison of the engine's float64 with the specified value; XFloat.tla: "
+    "exact unbounded binary64 (correctly rounded decimal conversion, + - * div, exact mod, floor, ceiling, shortest "
+    "round-trip string) on arbitrary-precision naturals, MC_Float families arith1, arith2, fn, str",
     "Bounded-exhaustive model checking of arithmetic, number(), count(), sum(), floor(), ceiling(), unary minus and "
-    "string(number); expressions whose exact value leaves the dyadic model (1 div 3) are outside the model and skipped.",
-    CLAIMS["C01"][2] + " IEEE rounding itself is not modelled (DESIGN.md 8).", "DESIGN.md 4/C08")
+    "string(number); values outside the small dyadic model (1 div 3, 0.1 + 0.2, 2^63) are decided by the XFloat families.",
+    CLAIMS["C01"][2] + " XFloat.tla is trusted to state IEEE 754 round-to-nearest-even (its sanity invariant FloatSanity "
+    "pins well-known values).", "DESIGN.md 4/C08, 12.5")
 CLAIMS["C09"] = (
     "TLA+ string library (XValue.tla) explored by TLC over the full argument product per function (substring: strings x "
     "15 starts x 11 lengths incl. negative/fractional/beyond the end) and depth-2 compositions; replay on the engine; "
-    "depth 3-4 compositions by seeded engine traces validated by TLC",
+    "depth 3-4 compositions by seeded engine traces validated by TLC; substring() positions that are halves, inexact "
+    "sums, NaN, infinities or beyond 2^63 through the exact binary64 model XFloat.tla (MC_Float family substr)",
     "Exhaustive model checking of every string function over an ASCII pool incl. empty / whitespace strings and flat "
     "node-set arguments (first node, empty set).",
     CLAIMS["C01"][2], "DESIGN.md 4/C09")
